@@ -41,6 +41,28 @@ pub struct Case4 {
 /// per helper: opened values (u128 for the scalar drivers, pseudonyms for the PRF drivers)
 type Outputs = Vec<Out<Vec<u128>>>;
 
+/// per-record outcome markers of the scalar drivers (never field values: the fields are <= 32 bits)
+const FAILED: u128 = u128::MAX;
+const UNFINISHED: u128 = u128::MAX - 1;
+/// the record's validation returned an error
+const FAILED_VALIDATION: u128 = u128::MAX - 2;
+/// the record's validation returned Ok, its opening did not finish
+const VALIDATED_ONLY: u128 = u128::MAX - 3;
+/// the record failed before it asked for validation (upgrade / multiplication)
+const FAILED_EARLY: u128 = u128::MAX - 4;
+const MARKERS: u128 = u128::MAX - 4;
+
+fn marker_name(x: u128) -> String {
+    match x {
+        FAILED => "opening failed".to_string(),
+        UNFINISHED => "unfinished".to_string(),
+        FAILED_VALIDATION => "validation failed".to_string(),
+        VALIDATED_ONLY => "validated, opening unfinished".to_string(),
+        FAILED_EARLY => "failed before validation".to_string(),
+        v => v.to_string(),
+    }
+}
+
 fn inputs(c: &Case4) -> Vec<(u128, u128)> {
     (0..c.records).map(|i| (3 + 5 * i as u128, 7 + 11 * i as u128)).collect()
 }
@@ -70,19 +92,64 @@ where
         futs.push(Box::pin(async move {
             let v = ctx.set_total_records(n).validator::<F>();
             let m_ctx = v.context();
-            let res = futures::future::try_join_all(inp.into_iter().enumerate().map(|(i, (a, b))| {
-                let m_ctx = m_ctx.clone();
-                async move {
-                    let rid = RecordId::from(i);
-                    let (am, bm) = (a, b).upgrade(m_ctx.clone(), rid).await?;
-                    let prod = am.multiply(&bm, m_ctx.clone(), rid).await?;
-                    m_ctx.validate_record(rid).await?;
-                    let opened = reveal(m_ctx.narrow("verif-open"), rid, &prod).await?;
-                    Ok::<_, crate::error::Error>(F::from_array(&opened).as_u128())
+            // every record runs to its own end: a record that fails (validation or opening) is
+            // reported as FAILED, one that is still waiting 1.5 s after the first failure as UNFINISHED;
+            // what the other records of the same run opened stays visible to the oracle
+            use futures::StreamExt;
+            let validated = std::sync::Arc::new(std::sync::Mutex::new(vec![false; n]));
+            let mut pending: futures::stream::FuturesUnordered<_> = inp
+                .into_iter()
+                .enumerate()
+                .map(|(i, (a, b))| {
+                    let m_ctx = m_ctx.clone();
+                    let v2 = std::sync::Arc::clone(&validated);
+                    async move {
+                        let rid = RecordId::from(i);
+                        let stage = std::sync::atomic::AtomicU8::new(0);
+                        let r = async {
+                            let (am, bm) = (a, b).upgrade(m_ctx.clone(), rid).await?;
+                            let prod = am.multiply(&bm, m_ctx.clone(), rid).await?;
+                            stage.store(1, Ordering::SeqCst);
+                            m_ctx.validate_record(rid).await?;
+                            stage.store(2, Ordering::SeqCst);
+                            v2.lock().unwrap()[i] = true;
+                            let opened = reveal(m_ctx.narrow("verif-open"), rid, &prod).await?;
+                            Ok::<_, crate::error::Error>(F::from_array(&opened).as_u128())
+                        }
+                        .await;
+                        // which step failed
+                        let r = r.map_err(|e| (stage.load(Ordering::SeqCst), e));
+                        (i, r)
+                    }
+                })
+                .collect();
+            let mut res = vec![UNFINISHED; n];
+            let mut deadline: Option<tokio::time::Instant> = None;
+            loop {
+                let next = match deadline {
+                    Some(d) => match tokio::time::timeout_at(d, pending.next()).await {
+                        Ok(x) => x,
+                        Err(_) => break,
+                    },
+                    None => pending.next().await,
+                };
+                match next {
+                    Some((i, Ok(v))) => res[i] = v,
+                    Some((i, Err((stage, _)))) => {
+                        res[i] = match stage { 0 => FAILED_EARLY, 1 => FAILED_VALIDATION, _ => FAILED };
+                        deadline.get_or_insert(tokio::time::Instant::now() + Duration::from_millis(1500));
+                    }
+                    None => break,
                 }
-            }))
-            .await
-            .map_err(|e| format!("{e:?}"))?;
+            }
+            // abandoned waits may panic in their destructors
+            let _ = std::panic::catch_unwind(std::panic::AssertUnwindSafe(move || drop(pending)));
+            // a record that passed validation but whose opening did not finish
+            for (i, v) in validated.lock().unwrap().iter().enumerate() {
+                if *v && res[i] == UNFINISHED {
+                    res[i] = VALIDATED_ONLY;
+                }
+            }
             Ok(res)
         }));
     }
@@ -410,8 +477,39 @@ fn judge(c: &Case4, f: &AnyFault, honest: &Outputs, out: &Outputs, changed: u64)
     }
     let corrupt = f.channel().source;
     let hs = [(corrupt + 1) % 3, (corrupt + 2) % 3];
-    if hs.iter().any(|h| !matches!(out[*h], Out::Ok(_))) {
-        let timeout_only = hs.iter().all(|h| matches!(out[*h], Out::Ok(_) | Out::Timeout));
+    // record level (scalar drivers): whatever else failed, a value an honest helper did open must be the
+    // untampered one
+    // one verdict per validation batch (all records of these drivers are in one batch): if the validation
+    // of some record failed on an honest helper, no record may have passed it there
+    for h in hs {
+        if let Out::Ok(got) = &out[h] {
+            if got.contains(&FAILED_VALIDATION) {
+                if let Some(i) = got.iter().position(|x| *x < MARKERS || *x == VALIDATED_ONLY || *x == FAILED) {
+                    return json!({"class":"VIOLATION:validated-in-failed-batch","what":format!(
+                        "driver {} ({} records): helper {corrupt} applied {} ; on honest helper {h} the MAC check of the batch failed, yet the validation of record {i} returned Ok (per record: {:?})",
+                        c.driver, c.records, f.json()["kind"], got.iter().map(|x| marker_name(*x)).collect::<Vec<_>>())});
+                }
+            }
+        }
+    }
+    // (not in the 31-element field: with probability 1/31 - for some seeds - the MAC key is 0, every
+    // validation passes, and the statement only promises that *some* honest helper fails, which the
+    // opening then does)
+    if let (Some(want), true) = (honest[0].ok(), c.driver != "fp31") {
+        for h in hs {
+            if let Out::Ok(got) = &out[h] {
+                for (i, g) in got.iter().enumerate() {
+                    if *g < MARKERS && want.get(i) != Some(g) {
+                        return json!({"class":"VIOLATION:deviation-accepted","what":format!(
+                            "driver {} ({} records): helper {corrupt} applied {} ; honest helper {h} validated and opened {g} for record {i} instead of {:?} (other records of the run failed: {:?})",
+                            c.driver, c.records, f.json()["kind"], want.get(i), got.iter().map(|x| marker_name(*x)).collect::<Vec<_>>())});
+                    }
+                }
+            }
+        }
+    }
+    if hs.iter().any(|h| !matches!(&out[*h], Out::Ok(v) if v.iter().all(|x| *x < MARKERS))) {
+        let timeout_only = hs.iter().all(|h| matches!(&out[*h], Out::Timeout) || matches!(&out[*h], Out::Ok(v) if !v.contains(&FAILED) && !v.contains(&FAILED_VALIDATION) && !v.contains(&FAILED_EARLY)));
         return json!({"class": if timeout_only { "never-produces-output" } else { "rejected" }});
     }
     // both honest helpers opened values: they must be the untampered ones
